@@ -254,7 +254,7 @@ Section Engine.
     end.
 
   Definition all_group (g : group) (x : ctx) (ws : list wrapper) (c : cfg) : res bool :=
-    let c0 := if order_shows c (flat_map w_cbs ws) then set_amb c true else c in
+    let c0 := if order_shows c (flat_map w_cbs ws) then set_ambc (set_amb c true) true else c in
     do (c1, b) <- (if rm_async rm then all_list_async g x ws c0 else all_list g x ws c0);
     Ok (if negb b && Nat.ltb 1 (ncbs ws) && negb (rm_async rm) then set_ambc c1 true else c1) b.
 
@@ -264,22 +264,37 @@ Section Engine.
     a_validators : list wrapper; a_cond : list wrapper; a_before : list wrapper;
     a_exit : list wrapper; a_on : list wrapper; a_enter : list wrapper; a_after : list wrapper }.
 
-  (* SyncEngine._activate *)
-  Definition activate (t : atrans) (td : tdata) (c : cfg) : res (bool * pyres) :=
-    let x := {| x_act := nact c; x_ev := td_ev td; x_src := a_src t; x_tgt := a_tgt t;
-                x_state := a_src t; x_tag := td_tag td |} in
-    let c := set_nact c (S (nact c)) in
+  (* SyncEngine._activate, first half: validators, conditions, before, exit(source), on - everything
+     that runs while the source is still the current state.  None = the candidate was rejected. *)
+  Definition activate_pre (t : atrans) (x : ctx) (c : cfg) : res (option pyres) :=
     do (c, _v) <- call_group GValidators x (a_validators t) c;
     do (c, ok) <- all_group GCond x (a_cond t) c;
-    if negb ok then Ok c (false, no_res) else
+    if negb ok then Ok c None else
     do (c, rb) <- call_group GBefore x (a_before t) c;
     do (c, _e) <- (if a_internal t then Ok c [] else call_group GExit x (a_exit t) c);
     do (c, ro) <- call_group GOn x (a_on t) c;
+    Ok c (Some (rb, ro)).
+
+  (* second half: the single assignment of the state, then enter(target) and after *)
+  Definition activate_post (t : atrans) (x : ctx) (c : cfg) : res unit :=
     let c := set_field c (Some (a_tgt t)) in
     let x := with_state x (Some (a_tgt t)) in
     do (c, _n) <- (if a_internal t then Ok c [] else call_group GEnter x (a_enter t) c);
     do (c, _a) <- call_group GAfter x (a_after t) c;
-    Ok c (true, (rb, ro)).
+    Ok c tt.
+
+  Definition act_ctx (t : atrans) (td : tdata) (c : cfg) : ctx :=
+    {| x_act := nact c; x_ev := td_ev td; x_src := a_src t; x_tgt := a_tgt t;
+       x_state := a_src t; x_tag := td_tag td |}.
+
+  Definition activate (t : atrans) (td : tdata) (c : cfg) : res (bool * pyres) :=
+    let x := act_ctx t td c in
+    let c := set_nact c (S (nact c)) in
+    do (c, r) <- activate_pre t x c;
+    match r with
+    | None => Ok c (false, no_res)
+    | Some v => do (c, _u) <- activate_post t x c; Ok c (true, v)
+    end.
 
   Definition state_enter (s : nat) : list wrapper :=
     match nth_error (rm_states rm) s with Some st => rs_enter st | None => [] end.
